@@ -27,7 +27,7 @@ META = {
     "C06": dict(cat="exploration", ref="§3 C06", technique="reference-policy monitor: every decision of the real request handlers compared with an independent policy function and with the effects recorded on canary objects; isolation histories",
                 text="The decision table (switch settings x prefix x name class x object shape x operation) is swept through the real handlers (complete in the thorough tier); isolation is checked on sampled open/close histories.",
                 note="reference policy written from the statement (lib/rv/models.py); canary objects record which attribute was really touched"),
-    "C07": dict(cat="exploration", ref="§3 C07", technique="grammar fuzzer speaking well-framed protocol from an independent reference peer at a real default-config Connection, with canary/secret-token/audit/ledger monitors",
+    "C07": dict(cat="exploration", ref="§3 C07", technique="grammar fuzzer speaking well-framed protocol from an independent reference peer at a real default-config Connection - adaptive: it answers the victim's own questions about forged objects - with canary/secret-token/audit/ledger monitors and a state-based wedged-thread oracle",
                 text="Held on the generated hostile sessions (all message kinds, handler ids, labels, forged/harvested ids, crafted exception payloads).",
                 note="reference codec lib/rv/refcodec.py; audit hook + canary descriptors decide 'touched'; secrets searched in outgoing bytes"),
     "C08": dict(cat="exploration", ref="§3 C08", technique="offline checker over the recorded frame ledger (request/response bijection per seq) plus client-side token correlation, over generated request streams; plus several threads serving one connection under the controlled scheduler",
@@ -36,10 +36,10 @@ META = {
     "C09": dict(cat="exploration", ref="§3 C09", technique="runtime oracle over every built-in exception class x argument tuples x the four-switch matrix on real connections, with constructor/import canaries and wire scans",
                 text="Every built-in exception class is enumerated; argument tuples, custom classes and hostile payloads are sampled.",
                 note="expected args computed from the statement (plain -> same, else repr)"),
-    "C10": dict(cat="exploration", ref="§3 C10", technique="reference accounting model + structural invariant checked at every quiescent point of generated histories under held (driver-controlled) message delivery",
+    "C10": dict(cat="exploration", ref="§3 C10", technique="reference accounting model + structural invariant checked at every quiescent point of generated histories under held (driver-controlled) message delivery; plus 2-3 threads serving the owner's side under the controlled scheduler with pre-emption inside the table of lent objects",
                 text="Held on generated histories with driver-chosen delivery order, incl. systematic 'release notice crosses fresh reference' placements.",
                 note="in-memory transport with held delivery; single driver thread (delivery orders, not thread races, are the quantifier)"),
-    "C11": dict(cat="fault_enumeration", ref="§3 C11", technique="fault injection at every individual transport call (census run first) and byte offset, every close ordering; hook counters, closed flags, request outcomes and deadlock detector",
+    "C11": dict(cat="fault_enumeration", ref="§3 C11", technique="fault injection at every individual transport call (census run first) and byte offset, every close ordering; hook counters, closed flags, request outcomes and deadlock detector; plus the kernel's own end-of-stream on real pipes / socketpairs (peer vanishes; local close with a blocked thread), judged on state and poll counts",
                 text="For each workload of the family every individual poll/read/write call of both sides is failed once (enumerated from a census run), plus byte-offset cuts and close orderings.",
                 note="in-memory transport faults stand for socket/pipe errors (streams convert both to EOFError)"),
     "C12": dict(cat="exploration", ref="§3 C12", technique="controlled scheduler (baton threads + sys.monitoring LINE pre-emption) over the real Connection._send with a recording transport; systematic delay placement + seeded random schedules",
@@ -54,10 +54,10 @@ META = {
     "C15": dict(cat="exploration", ref="§3 C15", technique="executable reference state machine stepped beside the real AsyncResult under a virtual clock over generated event lists; schedules with callbacks registered while another thread dispatches the reply",
                 text="Held on generated event orderings incl. enumerated boundary lists around the expiry instant.",
                 note="virtual clock substituted for the time module references of rpyc.lib / async_"),
-    "C16": dict(cat="exploration", ref="§3 C16", technique="real servers in child processes under hostile byte-level clients beside scripted well-behaved clients with unique tokens and identities; delay injection (sys.monitoring LINE) in the per-client set-up and descriptor hand-over paths; state-at-quiescence samples",
+    "C16": dict(cat="exploration", ref="§3 C16", technique="real servers in child processes under hostile byte-level clients beside scripted well-behaved clients with unique tokens and identities; delay injection (sys.monitoring LINE) in the per-client set-up and descriptor hand-over paths; state-at-quiescence samples; forking servers with a 64-entry descriptor table; the stock classic service behind the stock servers (namespace isolation)",
                 text="Held on the sampled mixes of hostile and good clients for threaded, thread-pool and forking servers, with and without authenticator.",
                 note="loopback sockets of this host; watchdogs only bound waiting for quiescence"),
-    "C17": dict(cat="exploration", ref="§3 C17", technique="state-at-quiescence monitor over real servers: fd counts, client tables, hook counters, client-side EOF after close; delay injection inside close()",
+    "C17": dict(cat="exploration", ref="§3 C17", technique="state-at-quiescence monitor over real servers: fd counts, client tables, hook counters, client-side EOF after close; delay injection inside close() and at the accept loop's exit; authenticator variants (token / another socket object / no time limit); deterministic reset-during-set-up scenario",
                 text="Held on sampled connect/call/leave histories followed by close; listed known findings for genuine defects.",
                 note="/proc/self/fd accounting after gc.collect() in the server process"),
     "C18": dict(cat="exploration", ref="§3 C18", technique="reference membership model under a virtual clock + real UDP/TCP registry loops under malformed inputs with liveness probe after each",
